@@ -20,7 +20,7 @@ NA = {
 
 PENDING = {
     'C07': 'filestore', 'C13': 'playback',
-    'C16': 'history', 'C17': 'charset', 'C18': 'netsim',
+    'C16': 'history', 'C17': 'charset',
 }
 
 CHECKS = {
@@ -44,6 +44,10 @@ CHECKS = {
                 technique='single-threaded discrete-event simulation: caller operation histories against a device on a virtual clock with injected hang-ups, partial messages and write errors; per-operation reference model (FIFO of taken-in messages, release count, reset batches, deadlines)',
                 text='Generated histories (send, receive, receive(block=False), poll, iter_pending, for-loops with optional close() in the body, close, with-blocks whose body may raise, reset, panic, del, clock advance) on each port type - custom device ports (input/output/IO; old-style, new-style and genuinely blocking _receive), EchoPort, IOPort over two device doubles, MultiPort over 1-3 device ports. The device lives on the simulated clock: messages arrive at planned times; it hangs up (closes the port from inside _receive) at every position relative to the arrivals, optionally after a partial message; _send raises OSError at planned call indices, also during the autoreset of close(). Checked per operation: device released exactly once in total; the 32 reset messages exactly once and before the release; send after close raises ValueError and never reaches the device; receive/poll/iteration hand out exactly the taken-in messages in order, then None / raise / end of iteration without an exception; a non-blocking call never advances the clock or sleeps; a blocking receive returns within 3 poll intervals of a message becoming deliverable and a call still inside 50 intervals after the last scheduled event is reported as never returning; with closes on both exits and does not swallow the exception.',
                 note='"Taken in" is defined observably (bytes the device double handed to the port). Single caller thread by design: the documentation says opening and closing ports is not thread safe. Socket ports are exercised by the netsim engine (C18), C-library backends are not run.'),
+    'C18': dict(engine='netsim', category='fault_enumeration', design='3 / C18',
+                technique='deterministic network simulation: in-process TCP-like byte pipes under a virtual clock with complete per-workload sweep of the disconnect offset (FIN/RST at every byte), scripted segmentation and delays, raw and real peers',
+                text='mido.sockets runs unmodified on a simulated network (socket, makefile, select and time are simulator stubs; order-preserving byte pipes with scheduled deliveries). Scenario 1: for each sampled message sequence (all types, real-time bytes inside sysex) the peer is cut at EVERY byte offset 0..L - FIN, or RST in a separately judged configuration - with the bytes before the cut segmented and delayed; the port is consumed by a for-loop, receive(), a poll loop or an iter_pending loop and must yield exactly the messages whose last byte arrived, in order, then end without an exception and report closed, never blocking past the deadline. Scenario 2: connect() <-> PortServer.accept(), traffic both ways, one side calls close(): the peer must reach end-of-stream, receive everything sent before, and report closed. Scenario 3: a PortServer with 1-3 raw clients connecting (also with data in flight before the accept), sending in segments and disconnecting (also mid-message) while the server polls, iterates and blocks: every completely arrived message exactly once, per-client order, no non-blocking call waits or hangs, blocking receive returns within a few poll intervals of an arrival. Every endpoint address is also checked for parse/format inversion. The cut sweep is complete per sampled workload; workloads are sampled.',
+                note='The network stub preserves order and loses nothing (what TCP gives an application); its close semantics (_io_refs rule, fileno, EPIPE) were pinned to a real socketpair. After RST only a prefix of the completely arrived messages is required.'),
 }
 
 
